@@ -1,6 +1,6 @@
 /-
 GENERATED FILE — do not edit.  Written by translators/countries2lean.py from
-  /tmp/seed-h6/opening-hours/src/localization/country/generated.rs
+  <checkout>/opening-hours/src/localization/country/generated.rs
 (the tables of `enum Country`: variants, `ALL`, `name`, `iso_code`, `Display`, `FromStr`), verbatim and
 in source order; no consistency check is made by the translator: `OH.Props.C10` decides them.
 Core-only (linked into the driver).
